@@ -14,6 +14,9 @@ import (
 // can be put together again with one part malformed and every checksum
 // (row-data hash, section CRC, metadata CRC) and every offset/size consistent.
 type c19Parts struct {
+	// secOrder, when set, is the physical order in which the blocks' filter sections are laid
+	// out inside the region (each block still points at its own section).
+	secOrder []int
 	meta     extfmt.Meta
 	disk     [][]byte // per block: row data as stored (compressed)
 	plain    [][]byte // per block: decoded row stream
@@ -66,7 +69,13 @@ func (p *c19Parts) assemble(keepUncompressed map[int]bool) []byte {
 		out.Write(p.disk[i])
 	}
 	meta.BlockFilterRegionOffset = out.Len()
-	for i := range meta.DataBlocks {
+	order := p.secOrder
+	if order == nil {
+		for i := range meta.DataBlocks {
+			order = append(order, i)
+		}
+	}
+	for _, i := range order {
 		blk := &meta.DataBlocks[i]
 		blk.BloomFilterOffset, blk.BloomFilterSize = 0, 0
 		if len(p.sections[i]) > 0 {
@@ -201,7 +210,16 @@ func deepMutation(r *core.Rand, b *c19Base) (mut []byte, what string, rowsIntact
 	}
 	bi := r.Intn(len(p.meta.DataBlocks))
 	codec := p.meta.DataBlocks[bi].Compression
-	switch r.Intn(6) {
+	switch r.Intn(7) {
+	case 6:
+		// a well-formed file whose sections are laid out in another order than the blocks
+		p.secOrder = r.Perm(len(p.meta.DataBlocks))
+		if r.Bool() {
+			for k := range p.secOrder {
+				p.secOrder[k] = len(p.secOrder) - 1 - k
+			}
+		}
+		return p.assemble(nil), fmt.Sprintf("deep:sections-laid-out-in-order-%v", p.secOrder), true, true
 	case 0, 1:
 		pl, what := malformRows(r, p.plain[bi])
 		d, err := extfmt.Compress(codec, pl)
